@@ -15,7 +15,7 @@ import numpy as np
 
 import e2e
 import models as M
-from common import Check, MachineryError, main_wrapper, run_tlc, run_workers, worker_main
+from common import handle_crash, Check, MachineryError, main_wrapper, run_tlc, run_workers, worker_main
 
 BASE = [["O", (0.03, -0.02, 0.05)], ["H", (0.10, 0.93, 0.21)], ["F", (-0.84, -0.31, 1.02)]]
 # a REPEATED element at inequivalent positions: relabelling can put another element between its two atoms (H,O,H), which
@@ -193,7 +193,8 @@ def main():
     gaps = []
     for res in run_workers(os.path.abspath(__file__), jobs, nproc=16, timeout=7000):
         if "crash" in res:
-            raise MachineryError("worker crashed: %s\n%s" % (res["crash"], res.get("tb")))
+            handle_crash(ck, res)
+            continue
         ck.evaluations += res["n"]
         ck.count(key=res["id"], n=0)
         gaps.append(res.get("gap", 1.0))
